@@ -498,7 +498,10 @@ def gen_edit(rng, spec, cfg, i, mix=None, focus=None):
             n, a = rng.choice(pairs)
             kind = spec["objs"][n]["attrs"][a][0]
             for _ in range(6):
-                sub = {"q": gen_numeric, "h": gen_hourly}.get(kind, gen_categorical)(rng, spec, cfg, {n}, i)
+                try:
+                    sub = {"q": gen_numeric, "h": gen_hourly}.get(kind, gen_categorical)(rng, spec, cfg, {n}, i)
+                except (IndexError, ValueError, KeyError):
+                    sub = None
                 if sub is not None and sub.get("obj") == n and sub.get("attr") == a:
                     sub["i"] = i
                     return sub
@@ -513,7 +516,11 @@ def gen_edit(rng, spec, cfg, i, mix=None, focus=None):
             x -= w
             if x <= 0:
                 break
-        op = fn(rng, spec, cfg, closure_names, i)
+        try:
+            op = fn(rng, spec, cfg, closure_names, i)
+        except (IndexError, ValueError, KeyError):
+            # a pool this generator draws from is empty in the current spec (long histories delete objects)
+            op = None
         if op is not None:
             op["i"] = i
             return op
